@@ -20,6 +20,7 @@ import (
 	"time"
 
 	gcmn "github.com/dappledger/AnnChain/gemmill/modules/go-common"
+	"github.com/dappledger/AnnChain/utils/verifhook"
 )
 
 /* AutoFile usage
@@ -100,6 +101,7 @@ func (af *AutoFile) closeFile() (err error) {
 }
 
 func (af *AutoFile) Write(b []byte) (n int, err error) {
+	verifhook.Write("autofile.Write:" + af.Path)
 	af.mtx.Lock()
 	defer af.mtx.Unlock()
 
